@@ -8,7 +8,7 @@ From Coq Require Import ZArith List String Bool Lia.
 Import ListNotations.
 Require Import Verif.lib.PyLite Verif.gen.BananaGen Verif.gen.SlicersGen Verif.lib.Token Verif.lib.TokenProofs
         Verif.lib.Obj Verif.lib.ObjProofs Verif.lib.ObjDefer Verif.lib.ObjDeferProofs
-        Verif.lib.ObjChunks Verif.lib.ObjVocab.
+        Verif.lib.ObjChunks Verif.lib.ObjVocab Verif.lib.ObjCanon Verif.lib.SendHeap Verif.lib.SendHeapProofs Verif.lib.SendHeapE2E.
 Local Open Scope Z_scope.
 
 (* "Any object graph built from the supported pass-by-value types ... including graphs with shared sub-objects and
@@ -19,11 +19,7 @@ Local Open Scope Z_scope.
    children, same pointers.  Guard wf_obj_wide = every reference resolves in its scope, dict / Copyable shapes, and NOT the
    known-defective region (a Copyable attribute value / dict key that refers to a tuple, frozenset or Copyable still being
    built: C01_refuted_* below).  Cycles through nested tuples (l = []; t = (l,); l.append((t,))) are inside the guard.
-   WHAT IS MODELLED: the receiver is a machine (`run`, and the Deferred-level `drun` below).  The SENDER is not a machine:
-   `slice` is defined on the canonical term (the term already says which occurrence is a reference), there is no id()-keyed
-   reference table in the model; that the real slicer stack (ScopedSlicer.slicerForObject / registerRefID, RootSlicer) emits
-   `slice (canonical term of the graph)` is tied by translated flags (trackReferences, opentype), fail-closed shape facts and
-   the per-case sender-bytes correspondence only. *)
+   `slice` acts on canonical terms; that it is what the real slicer stack emits is the theorem C01_sender_machine below. *)
 Theorem C01_slice_unslice : forall scoped n t, wf_obj_wide scoped n t = true ->
   unslice scoped n (slice n t) = Some (heap_of n t, [val_of n t]).
 Proof. exact slice_unslice_wide. Qed.
@@ -41,6 +37,52 @@ Theorem C01_run_slice : forall t n sc vis imm vis' st, wf_wide sc vis imm n t = 
   run (slice n t) st = Some (adv st [val_of n t] (regs_of n t) (heap_of n t) (opens t)).
 Proof. exact run_slice_wide. Qed.
 Print Assumptions C01_run_slice.
+
+(* THE SENDER AS A MACHINE (lib/SendHeap.v).  A Python-like heap: object id -> kind + children (atoms or object ids: arbitrary
+   sharing and cycles); `send_heap` = Banana.produce over the slicer stack: the top slicer's iterator, sendToken for
+   SIMPLE_TOKENS, slicerForObject climbing the parents through every ScopedSlicer's references table
+   (gen_scoped_lookup / gen_scoped_register: translated from ScopedSlicer.slicerForObject / registerRefID), pushSlicer =
+   sendOpen + registerRefID in the nearest scope for trackReferences kinds, popSlicer = CLOSE and the scope's table dies;
+   `canon_of` = the canonical term by recursive descent.  For EVERY heap and queue of top-level objects whose descent
+   terminates, the machine emits exactly `slice_list` of the canonical terms (and nothing else, whatever the fuel). *)
+Theorem C01_sender_machine : forall h scoped n q fuel os,
+  canon_of fuel h scoped n q = Some os -> exists fuel', send_heap fuel' h scoped n q = Some (slice_list n os).
+Proof. exact send_heap_is_slice_canon. Qed.
+Print Assumptions C01_sender_machine.
+Theorem C01_sender_machine_unique : forall h scoped n q fuel fuel' toks os,
+  send_heap fuel h scoped n q = Some toks -> canon_of fuel' h scoped n q = Some os -> toks = slice_list n os.
+Proof. exact send_heap_unique. Qed.
+Print Assumptions C01_sender_machine_unique.
+
+(* "equal in value and type ... same sharing/cycle structure" as graph isomorphism = equality of canonical terms: the
+   read-back of the graph a term denotes is the term *)
+Theorem C01_canon_inverts : forall scoped n t, wf_obj_wide scoped n t = true ->
+  canon (size t) (heap_of n t) n (val_of n t) = Some (t, n + opens t).
+Proof. exact canon_inverts. Qed.
+Print Assumptions C01_canon_inverts.
+
+(* END TO END OVER HEAPS: for every heap, queue, vocabulary table (distinct indices) and packetisation, what the sender
+   machine emits is rebuilt by the receiver into a graph with the sender's canonical terms (iso_to_sender).  Side
+   conditions: the descent terminates, the canonical terms pass the guard (shapes; not the known-defective region), the
+   tokens fit the wire format. *)
+Theorem C01_heap_end_to_end : forall h scoped n q fuel os v fuel' toks tbl bs cs,
+  canon_of fuel h scoped n q = Some os -> wf_list_wide scoped [] [] n os = Some v ->
+  send_heap fuel' h scoped n q = Some toks ->
+  NoDup (map snd tbl) -> forallb wf_token (envocab tbl toks) = true -> encode_stream (envocab tbl toks) = Ok bs ->
+  List.concat cs = bs ->
+  exists toks' rh rv, devocab tbl (tokens_of_chunks cs) = Some toks' /\ unslice scoped n toks' = Some (rh, rv) /\
+                      iso_to_sender os n rh rv.
+Proof. exact heap_end_to_end. Qed.
+Print Assumptions C01_heap_end_to_end.
+Theorem C01_heap_end_to_end_deferred_partial : forall h scoped n q fuel os v fuel' toks tbl bs cs toks' r,
+  canon_of fuel h scoped n q = Some os -> wf_list_wide scoped [] [] n os = Some v ->
+  send_heap fuel' h scoped n q = Some toks ->
+  NoDup (map snd tbl) -> forallb wf_token (envocab tbl toks) = true -> encode_stream (envocab tbl toks) = Ok bs ->
+  List.concat cs = bs ->
+  devocab tbl (tokens_of_chunks cs) = Some toks' -> dunslice scoped n toks' = Some r ->
+  iso_to_sender os n (fst r) (snd r).
+Proof. exact heap_end_to_end_deferred. Qed.
+Print Assumptions C01_heap_end_to_end_deferred_partial.
 
 (* Deferred completion ("including graphs with ... reference cycles", through immutable containers).  The theorems above
    are about the pointer machine: a reference to a container still being built is a pointer to its node.  The code cannot
@@ -135,13 +177,23 @@ Print Assumptions C01_roundtrip_any_vocab.
 
 (* "Sharing is preserved within one call and never leaks between two calls": (guard) a scoped sequence admitted by the guard
    where nothing outside is visible refers only to objects opened inside itself, and leaves nothing visible behind.  This is a
-   statement about which TERMS the guard admits (the terms a per-call reference scope can produce); it is not a theorem about
-   ScopedSlicer, which is not modelled as a machine (see the note above C01_slice_unslice): that the real per-call table is
-   fresh for every call is checked by the oracle (no identity shared between two calls) and the sender-bytes correspondence; *)
+   statement about which TERMS the guard admits; the statement about the slicer machine itself is C01_machine_scope_is_local; *)
 Theorem C01_scope_refs_are_local : forall nm xs imm n vis',
   wf_wide false [] imm n (OCont (CScope nm) xs) = Some vis' -> refs_ge_list (n + 1) xs = true /\ vis' = [].
 Proof. exact (scope_refs_are_local false). Qed.
 Print Assumptions C01_scope_refs_are_local.
+
+(* (sender MACHINE) a call / arguments / answer scope pushed when no enclosing slicer has a table (a Broker): the machine
+   serializes it with a table of its own that starts empty and is dropped at its CLOSE (ss_scopes is [] again), and every
+   reference emitted inside points at an object opened inside this very scope *)
+Theorem C01_machine_scope_is_local : forall h fuel oid nd n t n' scs',
+  sfind oid h = Some nd -> is_scope (sn_kind nd) = true ->
+  bcanon fuel h [] n (SObj oid) = Some (t, n', scs') ->
+  scs' = [] /\ refs_ge (n + 1) t = true /\
+  forall o rest sc r out, exists k,
+    ssteps k h (mkst (fr o (SObj oid :: rest) sc :: r) [] n out) = Some (mkst (fr o rest sc :: r) [] n' (out ++ slice n t)).
+Proof. exact machine_scope_is_local. Qed.
+Print Assumptions C01_machine_scope_is_local.
 
 (* (receiver) after a call has been closed, a reference in the next call to ANY number outside that call is refused *)
 Theorem C01_scope_isolation_receiver : forall nm1 xs1 nm2 n k v,
